@@ -1933,7 +1933,7 @@ fn balance_key(addr: &[u8]) -> Vec<u8> {
     k
 }
 
-const TAMPER_KINDS: u32 = 24;
+const TAMPER_KINDS: u32 = 25;
 
 fn tamper_name(t: u32) -> &'static str {
     match t {
@@ -1961,6 +1961,7 @@ fn tamper_name(t: u32) -> &'static str {
         21 => "proof_ops_missing",
         22 => "error_code",
         23 => "bank_path_truncated_to_subroot",
+        24 => "other_state_chain_closed_by_a_surplus_op",
         101 => "absent_in_empty_bank_store",
         _ => "forged_value_for_absent_account",
     }
@@ -2076,6 +2077,9 @@ impl BalNode {
             Extra,
             Batch,
             NonExist,
+            /// a self-consistent chain over another state, with one more op whose *value* is that
+            /// state's app hash (nothing links it to the header's app hash)
+            SurplusRoot,
             /// a non-existence proof assembled from the key's real neighbours (the key itself
             /// sits between them)
             ForgedAbsence,
@@ -2150,6 +2154,15 @@ impl BalNode {
                 }
                 _ => applied = 0,
             },
+            24 => match (self.other.bank.get(&key), self.other.bank_proof(&key)) {
+                (Some(v), Some(ep)) => {
+                    value = v.clone();
+                    ep0 = ep;
+                    ep1 = self.other.store_proof();
+                    shape = Shape::SurplusRoot;
+                }
+                _ => applied = 0,
+            },
             16 => shape = Shape::Only0,
             17 => shape = Shape::Only1,
             18 => shape = Shape::Extra,
@@ -2210,6 +2223,15 @@ impl BalNode {
             Shape::Only0 => Some(ProofOps { ops: vec![op0] }),
             Shape::Only1 => Some(ProofOps { ops: vec![op1] }),
             Shape::Extra => Some(ProofOps { ops: vec![op0, op1.clone(), op1] }),
+            Shape::SurplusRoot => {
+                let surplus = ics23::ExistenceProof {
+                    key: b"root".to_vec(),
+                    value: self.other.app_hash().to_vec(),
+                    leaf: Some(leaf_op(vec![0u8])),
+                    path: vec![],
+                };
+                Some(ProofOps { ops: vec![op0, op1, exist_op("ics23:simple", surplus)] })
+            }
             _ => Some(ProofOps { ops: vec![op0, op1] }),
         };
         *self.sent.lock().unwrap() = Some((resp.value.clone(), applied));
